@@ -75,7 +75,7 @@ WORLD_PROPS = ('C01', 'C02', 'C03', 'C04', 'C08', 'C09', 'C12', 'C13', 'C14', 'C
 
 
 # properties whose obligations include the instantiated query templates (the templates unit CONTAINS the world unit)
-TEMPLATE_PROPS = ('C01', 'C02', 'C03', 'C06', 'C07', 'C09')
+TEMPLATE_PROPS = ('C01', 'C02', 'C03', 'C06', 'C07', 'C09', 'C10')
 
 
 def jobs_for(prop, tier):
